@@ -34,7 +34,10 @@ use std::path::{Path, PathBuf};
 use std::sync::{Arc, Mutex};
 use std::time::{Duration, Instant};
 
-const QUIESCENCE_TIMEOUT: Duration = Duration::from_secs(60);
+/// 60 s; `VERIF_C01_TIMEOUT_S` overrides it (debugging only)
+fn quiescence_timeout() -> Duration {
+    Duration::from_secs(std::env::var("VERIF_C01_TIMEOUT_S").ok().and_then(|v| v.parse().ok()).unwrap_or(60))
+}
 
 // ------------------------------------------------------------------------------------------------
 // callbacks
@@ -181,29 +184,42 @@ fn genesis_blk(consensus: &ckb_chain_spec::consensus::Consensus) -> Blk {
     }
 }
 
+/// A fully valid block that is NOT attached to the builder's branch store (the store stays at the
+/// parent, so a sibling can still be built in place): `Tweak::Timestamp` with the value the builder
+/// would have chosen anyway. Used for blocks without children (no store is ever needed at their tip;
+/// each new branch store costs a RocksDB open) and as the base of non-contextually invalid blocks.
+fn build_detached(b: &mut ChainBuilder, parent: &Blk, salt: u64) -> BlockView {
+    let ts = parent.block.timestamp() + 1 + salt % 3;
+    b.build(&parent.hash, &BlockSpec { salt, tweak: Tweak::Timestamp(ts), ..Default::default() })
+}
+
 /// A block that fails non-contextual verification (`MerkleRootVerifier`): a valid block whose
-/// header's transactions_root is overwritten. (`Tweak::TxRoot` of node.rs goes through
-/// `packed::Block::into_view`, which recomputes the roots, so it yields a valid block; it is used
-/// here only to keep the valid original out of the builder's branch stores.) The corrupted block is
-/// registered in the builder so that children can be built on it.
-fn build_nc_invalid(b: &mut ChainBuilder, parent: &Byte32, salt: u64) -> BlockView {
-    let v = b.build(parent, &BlockSpec { salt, tweak: Tweak::TxRoot, ..Default::default() });
+/// header's transactions_root is overwritten, converted with `into_view_without_reset_header`.
+/// (`Tweak::TxRoot` of node.rs goes through `packed::Block::into_view`, which recomputes the roots,
+/// so it yields a valid block.) The corrupted block is registered in the builder so that children
+/// can be built on it.
+fn build_nc_invalid(b: &mut ChainBuilder, parent: &Blk, salt: u64) -> BlockView {
+    let v = build_detached(b, parent, salt);
     let raw = v.data().header().raw().as_builder().transactions_root(Byte32::zero()).build();
     let header = v.data().header().as_builder().raw(raw).build();
     let block = v.data().as_builder().header(header).build().into_view_without_reset_header();
-    assert!(block.transactions_root() != block.calc_transactions_root() && block.hash() != v.hash());
+    assert!(block.transactions_root() != block.calc_transactions_root());
     b.blocks.remove(&v.hash());
     b.blocks.insert(block.hash(), block.clone());
     block
 }
 
-fn build_blk(b: &mut ChainBuilder, id: usize, parent: &Blk, kind: Kind) -> Blk {
+/// `leaf`: the caller knows that nothing will be built on this block (only an optimisation: the
+/// block is byte-identical either way).
+fn build_blk(b: &mut ChainBuilder, id: usize, parent: &Blk, kind: Kind, leaf: bool) -> Blk {
     let fdl = b.consensus.finalization_delay_length();
-    let block = if kind == Kind::Nc {
-        build_nc_invalid(b, &parent.hash, id as u64)
-    } else {
-        let tweak = tweak_for(kind, id, parent.num + 1, fdl);
-        b.build(&parent.hash, &BlockSpec { salt: id as u64, tweak, ..Default::default() })
+    let block = match kind {
+        Kind::Nc => build_nc_invalid(b, parent, id as u64),
+        Kind::Valid if leaf => build_detached(b, parent, id as u64),
+        _ => {
+            let tweak = tweak_for(kind, id, parent.num + 1, fdl);
+            b.build(&parent.hash, &BlockSpec { salt: id as u64, tweak, ..Default::default() })
+        }
     };
     Blk {
         id,
@@ -264,6 +280,15 @@ impl CaseRun {
     fn start(dir: &Path, consensus: &ckb_chain_spec::consensus::Consensus, cfg: &NodeCfg, threads: usize) -> CaseRun {
         let _ = std::fs::remove_dir_all(dir);
         let node = Node::start(dir, consensus.clone(), cfg);
+        // The start-up scan (`InitLoadUnverified`, its own thread) re-delivers, without callback,
+        // every stored block that has no ext. It must have finished before the first delivery (the
+        // sync layer waits for the same flag), else it picks up the harness's freshly stored orphans,
+        // replaces their pool entries and drops their callbacks.
+        let t = Instant::now();
+        while node.controller().is_verifying_unverified_blocks_on_startup() {
+            assert!(t.elapsed() < Duration::from_secs(60), "the start-up scan of a fresh node did not finish in 60 s");
+            std::thread::sleep(Duration::from_micros(100));
+        }
         CaseRun {
             node: Some(node),
             dir: dir.to_path_buf(),
@@ -335,8 +360,18 @@ impl CaseRun {
             if outstanding == pool {
                 return Ok(());
             }
-            if start.elapsed() > QUIESCENCE_TIMEOUT {
-                return Err(format!("no quiescence after 60s: handed={} fired={fired} dropped={dropped} orphan_pool={pool}", self.handed));
+            if start.elapsed() > quiescence_timeout() {
+                let l = self.log.lock().unwrap();
+                let tail: Vec<String> = l.events.iter().rev().take(12).rev().map(|(i, v)| format!("{}:{}", i, v.as_str())).collect();
+                return Err(format!(
+                    "no quiescence after {}s: handed={} fired={} dropped={} orphan_pool={} last_callbacks={}",
+                    quiescence_timeout().as_secs(),
+                    self.handed,
+                    l.fired,
+                    l.dropped,
+                    self.node().controller().orphan_blocks_len(),
+                    tail.join(",")
+                ));
             }
             std::thread::sleep(step);
             step = (step * 2).min(Duration::from_millis(1));
@@ -694,15 +729,22 @@ fn selftest(base: &Path) {
         assert!(node.store().get_block_ext(&top.hash()).is_none(), "selftest: rejected {tw:?} block must have no ext");
         assert_eq!(node.tip_hash(), tip);
     }
-    for parent in [&below, &tip] {
+    for parent in [height as usize - 1, height as usize] {
         salt += 1;
-        let bad = build_nc_invalid(&mut b, parent, salt);
+        let pb = Blk { id: 0, parent: 0, hash: chain[parent].hash(), num: chain[parent].number(), epoch: 0, work: 0, kind: Kind::Valid, block: Arc::new(chain[parent].clone()) };
+        let bad = build_nc_invalid(&mut b, &pb, salt);
         let r = node.process(&bad);
         assert!(r.is_err(), "selftest: TxRoot block must fail, got {r:?}");
         assert_eq!(node.shared.get_block_status(&bad.hash()), BlockStatus::BLOCK_INVALID, "selftest: TxRoot block must be marked BLOCK_INVALID");
         assert!(!header_stored(&node, &bad.hash()), "selftest: TxRoot block must never be stored (non-contextual rejection)");
         assert_eq!(node.tip_hash(), tip);
     }
+    // the detached way of building (used for leaves) yields the very same valid block
+    let pb = Blk { id: 0, parent: 0, hash: tip.clone(), num: height, epoch: 0, work: 0, kind: Kind::Valid, block: Arc::new(chain[height as usize].clone()) };
+    let d = build_detached(&mut b, &pb, 77);
+    let n = b.build(&tip, &BlockSpec { salt: 77, ..Default::default() });
+    assert_eq!(d.hash(), n.hash(), "selftest: detached building must give the same block");
+    assert_eq!(node.process(&d), Ok(true), "selftest: detached-built block must be valid");
     node.stop();
     drop(b);
     let _ = std::fs::remove_dir_all(&dir);
@@ -818,31 +860,38 @@ fn generate(out: &mut Out, opts: &Opts, builder_base: &Path, node_base: &Path) {
     let (trees, orders) = if opts.thorough() { (250 * opts.scale, 6) } else { (60 * opts.scale, 3) };
     let t0 = Instant::now();
     let mut cases = 0u64;
+    let (mut t_build, mut t_start, mut t_ops, mut t_stop) = (Duration::ZERO, Duration::ZERO, Duration::ZERO, Duration::ZERO);
     for tno in 0..trees {
         let cfg = NodeCfg { epoch_len: rng.range(3, 6), with_pool: false, ..Default::default() };
         let consensus = make_consensus(&cfg);
         let n = if opts.thorough() && rng.chance(1, 4) { rng.range(41, 120) } else { rng.range(8, 40) } as usize;
         let tree = gen_tree(&mut rng, n);
         let bdir = builder_base.join(format!("t{tno}"));
+        let tb = Instant::now();
         let mut builder = ChainBuilder::new(consensus.clone(), &bdir);
         builder.max_branch_stores = 12;
         let mut blks = vec![genesis_blk(&consensus)];
         for id in 1..=n {
-            let b = build_blk(&mut builder, id, &blks[tree.parent[id]].clone(), tree.kind[id]);
+            let leaf = !tree.parent[id + 1..].contains(&id);
+            let b = build_blk(&mut builder, id, &blks[tree.parent[id]].clone(), tree.kind[id], leaf);
             blks.push(b);
         }
         drop(builder);
         let _ = std::fs::remove_dir_all(&bdir);
+        t_build += tb.elapsed();
         for ono in 0..orders {
             let order = gen_order(&mut rng, &tree);
             let burst = rng.chance(3, 10);
             let threads = rng.range(1, 3) as usize;
             let label = format!("el={} mode={} thr={} tree={} ord={} n={}", cfg.epoch_len, if burst { "burst" } else { "ser" }, threads, tno, ono, n);
             let case = out.begin_case(&label);
+            let ts = Instant::now();
             let mut run = CaseRun::start(&node_base.join(format!("c{case}")), &consensus, &cfg, threads);
+            t_start += ts.elapsed();
             for b in &blks {
                 run.declare(out, b.clone());
             }
+            let to = Instant::now();
             if burst {
                 run.burst(out, &order);
             } else {
@@ -853,13 +902,25 @@ fn generate(out: &mut Out, opts: &Opts, builder_base: &Path, node_base: &Path) {
                     }
                 }
             }
+            t_ops += to.elapsed();
+            let tf = Instant::now();
             run.finish(out);
+            t_stop += tf.elapsed();
             cases += 1;
             if cases % 100 == 0 {
                 eprintln!("C01: {} cases, {} trees, {:.1}s", cases, tno + 1, t0.elapsed().as_secs_f64());
             }
         }
     }
+    eprintln!(
+        "C01: {} cases in {:.1}s (building blocks {:.1}s, node start {:.1}s, deliveries {:.1}s, node stop {:.1}s)",
+        cases,
+        t0.elapsed().as_secs_f64(),
+        t_build.as_secs_f64(),
+        t_start.as_secs_f64(),
+        t_ops.as_secs_f64(),
+        t_stop.as_secs_f64()
+    );
 }
 
 // ------------------------------------------------------------------------------------------------
@@ -879,6 +940,8 @@ fn parse_ids(s: &str) -> Vec<usize> {
 
 struct ReplayCase {
     run: CaseRun,
+    /// ids that some later `blk` line of the case names as parent
+    parents: HashSet<usize>,
     builder: ChainBuilder,
     bdir: PathBuf,
 }
@@ -893,10 +956,18 @@ fn replay(out: &mut Out, ops: &[String], builder_base: &Path, node_base: &Path) 
             let _ = std::fs::remove_dir_all(&rc.bdir);
         }
     };
-    for line in ops {
+    for (lno, line) in ops.iter().enumerate() {
         let t: Vec<&str> = line.split_whitespace().collect();
         match t[0] {
             "case" => {
+                let parents: HashSet<usize> = ops[lno + 1..]
+                    .iter()
+                    .take_while(|l| !l.starts_with("case"))
+                    .filter_map(|l| {
+                        let t: Vec<&str> = l.split_whitespace().collect();
+                        if t.len() == 8 && t[0] == "blk" && t[1] != "0" { t[2].parse::<usize>().ok() } else { None }
+                    })
+                    .collect();
                 finish(&mut cur, out);
                 cno += 1;
                 let el = label_num(&t[2..], "el=", 4).clamp(1, 1000);
@@ -908,7 +979,7 @@ fn replay(out: &mut Out, ops: &[String], builder_base: &Path, node_base: &Path) 
                 let mut builder = ChainBuilder::new(consensus.clone(), &bdir);
                 builder.max_branch_stores = 12;
                 let run = CaseRun::start(&node_base.join(format!("r{cno}")), &consensus, &cfg, thr);
-                cur = Some(ReplayCase { run, builder, bdir });
+                cur = Some(ReplayCase { run, parents, builder, bdir });
             }
             "blk" => {
                 let rc = cur.as_mut().expect("blk before case");
@@ -922,7 +993,7 @@ fn replay(out: &mut Out, ops: &[String], builder_base: &Path, node_base: &Path) 
                 } else {
                     assert!(parent < id && rc.run.by_id.contains_key(&parent), "blk {id}: parent {parent} must be declared before and be smaller");
                     let p = rc.run.get(parent).clone();
-                    build_blk(&mut rc.builder, id, &p, Kind::from_flags(nc, ok))
+                    build_blk(&mut rc.builder, id, &p, Kind::from_flags(nc, ok), !rc.parents.contains(&id))
                 };
                 rc.run.declare(out, b);
             }
